@@ -1,0 +1,33 @@
+//go:build verif
+
+package unixfsnode
+
+// Machine-checked contracts for the govc verifier (/verif). This file is comment-only and is
+// compiled only with the "verif" build tag.
+
+//@ props C14
+
+//@ func unixfsnode.defaultReifier
+//@ ensures err == nil && result != nil && fresh(result) && typeis(result, "*unixfsnode._PathedPBNode") && result.(*unixfsnode._PathedPBNode)._substrate == substrate
+//@ assigns nothing
+
+//@ func (*unixfsnode._PathedPBNode).Substrate
+//@ ensures substrate-is-original: result == n._substrate
+//@ assigns nothing
+
+//@ func unixfsnode.defaultUnixFSReifier
+//@ ensures err == nil && result != nil && fresh(result) && typeis(result, "*unixfsnode._PathedPBNode") && result.(*unixfsnode._PathedPBNode)._substrate == substrate
+//@ assigns nothing
+
+// Reification is total and type-directed. The two dispatch tables are checked row by row by the
+// inventory obligation "reify-tables"; here: nodes that are not dag-pb come back unchanged, nodes
+// without (decodable) UnixFS data become a link map over the same node, an unknown type is an error.
+//@ func unixfsnode.doReify
+//@ ensures not-dagpb-unchanged: !typeis(maybePBNodeRoot, "*dagpb._PBNode") ==> result == maybePBNodeRoot && err == nil
+//@ ensures no-data-is-link-map: typeis(maybePBNodeRoot, "*dagpb._PBNode") && maybePBNodeRoot.(*dagpb._PBNode).Data.m != 2 ==> err == nil && typeis(result, "*unixfsnode._PathedPBNode") && result.(*unixfsnode._PathedPBNode)._substrate == maybePBNodeRoot
+//@ ensures error-has-no-node: err != nil ==> result == nil || typeis(result, "*hamt._UnixFSHAMTShard")
+
+//@ func unixfsnode.Reify
+//@ ensures not-dagpb-unchanged: !typeis(maybePBNodeRoot, "*dagpb._PBNode") ==> result == maybePBNodeRoot && err == nil
+//@ func unixfsnode.nonLazyReify
+//@ ensures not-dagpb-unchanged: !typeis(maybePBNodeRoot, "*dagpb._PBNode") ==> result == maybePBNodeRoot && err == nil
